@@ -286,6 +286,14 @@ async def run_create(world, case, made=None):
     ledger.coin_selection_strategy = case['strategy']
     funding = [world.accounts[i] for i in case['funding']]
     change_acc = world.accounts[case['change']]
+    if case.get('confirm'):
+        # the wallet has looked at its outputs while these transactions were unconfirmed (any coin selection / balance
+        # does); then they confirm (the sync updates the transaction's height); then the build runs
+        await ledger.get_effective_amount_estimators(list(dict.fromkeys(funding)))
+        for ti in case['confirm']:
+            ftx = world.funding_txs[ti][0]
+            ftx.height, ftx.is_verified = 20 + ti, True
+            await ledger.db.update_transaction(ftx)
     rows_before = await world.rows(list(dict.fromkeys(funding)))     # an account listed twice owns each output once
     all_rows = await world.sql("SELECT rowid AS rid, txoid FROM txo")
     rid_of = {r['txoid']: r['rid'] for r in all_rows}
@@ -771,6 +779,9 @@ def gen_case(rng, strategy, tier):
         case['change_used'] = True
     if not case.get('via') and rng.random() < 0.07:
         case['cancel'] = True
+    unconf = [ti for ti, t in enumerate(txs) if t['height'] <= 0]
+    if unconf and rng.random() < 0.2:
+        case['confirm'] = unconf if rng.random() < 0.7 else rng.sample(unconf, rng.randrange(1, len(unconf) + 1))
     if rng.random() < 0.05:
         case['funding'] = case['funding'] + [case['funding'][0]]        # the same account listed twice
     if case.get('via'):
@@ -894,6 +905,8 @@ def histogram(run, case, impl, obs):
         run.count('all change addresses used before the build')
     if obs.get('cancelled'):
         run.count('build cancelled while waiting for its change address')
+    if case.get('confirm'):
+        run.count('outputs seen unconfirmed, confirmed before the build')
     if len(set(case['funding'])) != len(case['funding']):
         run.count('an account listed twice among the funding accounts')
     for o in obs['outs']:
@@ -1081,6 +1094,82 @@ async def check_pair(run, world, model, case, kind):
     run.compare('C03.linearizable', case, impl, first)
 
 
+async def check_sweep(run, world, model, case, kind):
+    """an ordinary payment is already past its first lock section and asks for the reservation lock while
+    Account.fund(everything=True) holds it to read the account's outputs: reading and reserving must be one step, else the
+    payment (next in the queue) selects an output the sweep is about to spend.  Both are real calls; only their timing
+    is arranged.  Judged by the property's clause: every added input is unreserved and no output ends in both."""
+    ledger = world.ledger
+    await prepare(world, case)
+    ledger.coin_selection_strategy = case['strategy']
+    acc, other = world.accounts[0], world.accounts[1]
+    rid_of = {r['txoid']: r['rid'] for r in await world.sql("SELECT rowid AS rid, txoid FROM txo")}
+    state = {'pay_pre_done': False, 'sweep_reading': False}
+    orig_reserve, orig_gsu, orig_get_utxos = ledger.reserve_outputs, ledger.get_spendable_utxos, acc.get_utxos
+
+    async def reserve(txos):
+        r = await orig_reserve(txos)
+        if pair_tag.get() == 'pay':
+            state['pay_pre_done'] = True
+        return r
+
+    async def gsu(amount, accounts, *a, **k):
+        if pair_tag.get() == 'pay':
+            for _ in range(2000):                      # wait until the sweep holds the lock, then queue for it
+                if state['sweep_reading']:
+                    break
+                await asyncio.sleep(0.001)
+        return await orig_gsu(amount, accounts, *a, **k)
+
+    async def get_utxos(**constraints):
+        if pair_tag.get() == 'sweep':
+            state['sweep_reading'] = True
+            for _ in range(2000):                      # keep the lock until the payment is queued behind us
+                if getattr(ledger._utxo_reservation_lock, '_waiters', None):
+                    break
+                await asyncio.sleep(0.001)
+        return await orig_get_utxos(**constraints)
+    ledger.reserve_outputs, ledger.get_spendable_utxos, acc.get_utxos = reserve, gsu, get_utxos
+
+    async def pay():
+        pair_tag.set('pay')
+        try:
+            return await Transaction.create([], make_outputs(case['outs']), [acc], acc, sign=False)
+        except InsufficientFundsError:
+            return None
+
+    async def sweep():
+        pair_tag.set('sweep')
+        for _ in range(2000):
+            if state['pay_pre_done']:
+                break
+            await asyncio.sleep(0.001)
+        try:
+            return await acc.fund(other, everything=True, broadcast=False)
+        except InsufficientFundsError:
+            return None
+    try:
+        ptx, stx = await asyncio.gather(pay(), sweep())
+    finally:
+        del ledger.reserve_outputs, ledger.get_spendable_utxos, acc.get_utxos
+        ledger._utxo_reservation_lock = asyncio.Lock()
+    if ptx is not None:
+        await ledger.release_tx(ptx)
+    left = sorted(rid_of.get(t, t) for t in await world.reserved_txoids())
+    run.case(dict(case, origin=kind), nontrivial=ptx is not None or stx is not None)
+    run.count('payment queued for the lock while fund(everything) reads')
+    pin = [rid_of.get(t.txo_ref.id, -1) for t in ptx.inputs] if ptx is not None else []
+    sin = [rid_of.get(t.txo_ref.id, -1) for t in stx.inputs] if stx is not None else []
+    bad = None
+    if set(pin) & set(sin):
+        bad = ('the payment and Account.fund(everything=True) both spend output(s) %s: the payment was handed an output '
+               'the sweep had already picked' % sorted(set(pin) & set(sin)))
+    elif left:
+        bad = 'after both builds were abandoned %s is still reserved' % left
+    if bad:
+        run.violation(case, bad, signature={'case': vlib.canon(case)})
+
+
 async def check_change_race(run, world, case, kind):
     """every change address is used; k callers ask for a usable change address at once, as concurrent builds that all
     need change do: none may fail (create would fail with it: 'never fails in any other way') and every address has to
@@ -1147,6 +1236,8 @@ async def amain(run, only=None):
                 await check_pair(run, world, model, only, 'replay')
             elif only.get('kind') == 'change_race':
                 await check_change_race(run, world, only, 'replay')
+            elif only.get('kind') == 'sweep':
+                await check_sweep(run, world, model, only, 'replay')
             else:
                 await check_create(run, world, model, only, 'replay')
             return
@@ -1161,6 +1252,8 @@ async def amain(run, only=None):
                 await check_pair(run, world, model, case, 'corpus')
             elif case.get('kind') == 'change_race':
                 await check_change_race(run, world, case, 'corpus')
+            elif case.get('kind') == 'sweep':
+                await check_sweep(run, world, model, case, 'corpus')
             else:
                 await check_create(run, world, model, case, 'corpus')
         n_create = vlib.scaled(run.tier, 190, 4000)
@@ -1169,6 +1262,12 @@ async def amain(run, only=None):
         for k in range(n_create):
             for s in strats:
                 await check_create(run, world, model, gen_case(rng, s, run.tier), 'generated')
+        for k in range(vlib.scaled(run.tier, 3, 60)):
+            for s_ in strats:
+                pc = gen_pair_case(rng, s_)
+                await check_sweep(run, world, model, {'kind': 'sweep', 'fpb': pc['fpb'], 'fpnc': 0, 'strategy': s_, 'funding': [0],
+                                                      'change': 0, 'txs': pc['txs'], 'reserved': [], 'outs': pc['builds'][0]['outs'],
+                                                      'seed': pc['seed']}, 'generated')
         for k in range(vlib.scaled(run.tier, 6, 100)):
             await check_change_race(run, world, {'kind': 'change_race', 'account': rng.randrange(3), 'callers': rng.choice([2, 2, 3, 5])}, 'generated')
         for k in range(vlib.scaled(run.tier, 12, 300)):
